@@ -259,3 +259,84 @@ Section SpecProof.
     unfold lt_outputs. rewrite E. reflexivity.
   Qed.
 End SpecProof.
+
+(* ------------------------------------------------------------------------------------------ *)
+(* Time-outs, state level: a state with time-out T is occupied for at most T+1 consecutive cycles *)
+Section Dwell.
+  Variable c : lt_cfg.
+  Hypothesis H12 : T12 c < 2 ^ cw c.
+  Hypothesis H2 : T2 c < 2 ^ cw c.
+  Hypothesis H360 : T360 c < 2 ^ cw c.
+
+  Ltac split_ifs_eqn :=
+    repeat match goal with
+           | |- context [if ?b then _ else _] => let E := fresh "E" in destruct b eqn:E
+           end.
+
+  (* one step: either the counter was cleared (a transition was taken), or the state is unchanged, the counter
+     counted, and (in a timed state) the time-out had not been reached *)
+  Lemma step_shape : forall s i,
+    (cyc (lt_next c s i) = 0 /\ (st (lt_next c s i) <> st s \/ st_timeout c (st s) = None)) \/
+    (st (lt_next c s i) = st s /\ cyc (lt_next c s i) = (cyc s + 1) mod 2 ^ cw c /\
+     forall T, st_timeout c (st s) = Some T -> cyc s <> T).
+  Proof.
+    intros s i. unfold lt_next, warm, timeout, idle_exit, on, base.
+    destruct s as [f cy ps t2 hs ls ns bm lf tg ip rh rn].
+    cbn [st cyc polling_seen ts2_seen hot_seen loop_seen noscr_seen burst_met lfps_seen target inv_pol req_hot req_noscr].
+    destruct f; split_ifs_eqn; cbn [st cyc goto set_inv clr_hot set_lfps st_timeout];
+      first [ left; split; [reflexivity | first [left; discriminate | right; reflexivity]]
+            | right; split; [reflexivity | split; [reflexivity | intros T HT; inversion HT; subst; lia]] ].
+  Qed.
+
+  Definition K (s : lt_state) : Prop := forall T, st_timeout c (st s) = Some T -> cyc s <= T.
+
+  Lemma K_step : forall s i, K s -> K (lt_next c s i).
+  Proof.
+    intros s i HK T HT. destruct (step_shape s i) as [[E _] | (E1 & E2 & E3)].
+    - rewrite E. lia.
+    - rewrite E1 in HT. specialize (HK T HT). specialize (E3 T HT). rewrite E2.
+      assert (T < 2 ^ cw c) by (destruct (st s); cbn in HT; inversion HT; subst; assumption).
+      rewrite N.mod_small by lia. lia.
+  Qed.
+
+  Lemma K_run : forall ins s, K s -> K (lt_run c s ins).
+  Proof. induction ins as [|i t IH]; intros s H; cbn; [exact H | apply IH, K_step, H]. Qed.
+
+  Lemma K_init : K lt_init.
+  Proof. intros T H. cbn in H. discriminate. Qed.
+
+  Lemma dwell_count : forall mid s f T, K s -> st_timeout c f = Some T ->
+    (forall j, (j <= length mid)%nat -> st (lt_run c s (firstn j mid)) = f) ->
+    cyc (lt_run c s mid) = cyc s + N.of_nat (length mid).
+  Proof.
+    induction mid as [|i t IH]; intros s f T HK HT Hall.
+    - cbn. lia.
+    - assert (Hs : st s = f) by (apply (Hall 0%nat); cbn; lia).
+      assert (Hs' : st (lt_next c s i) = f) by (apply (Hall 1%nat); cbn; lia).
+      cbn [lt_run length]. rewrite (IH (lt_next c s i) f T).
+      + destruct (step_shape s i) as [[E [Hne | Hno]] | (E1 & E2 & E3)].
+        * congruence.
+        * rewrite Hs, HT in Hno. discriminate.
+        * rewrite E2. rewrite <- Hs in HT. specialize (HK T HT). specialize (E3 T HT).
+          assert (T < 2 ^ cw c) by (destruct (st s); cbn in HT; inversion HT; subst; assumption).
+          rewrite N.mod_small by lia. lia.
+      + apply K_step, HK.
+      + exact HT.
+      + intros j Hj. apply (Hall (S j)). cbn. lia.
+  Qed.
+
+  (* if, after any history `pre`, the LTSSM is in the timed state f and is still in f after every prefix of `mid`
+     (length mid + 1 consecutive cycles), then length mid <= T *)
+  Theorem lt_dwell : forall pre mid f T, st_timeout c f = Some T ->
+    (forall j, (j <= length mid)%nat -> st (lt_run c (lt_run c lt_init pre) (firstn j mid)) = f) ->
+    N.of_nat (length mid) <= T.
+  Proof.
+    intros pre mid f T HT Hall.
+    assert (HK : K (lt_run c lt_init pre)) by (apply K_run, K_init).
+    pose proof (dwell_count mid _ f T HK HT Hall) as E.
+    assert (HK' : K (lt_run c (lt_run c lt_init pre) mid)) by (apply K_run, HK).
+    assert (Hf : st (lt_run c (lt_run c lt_init pre) mid) = f).
+    { rewrite <- (firstn_all mid) at 1. apply Hall. lia. }
+    rewrite <- Hf in HT. specialize (HK' T HT). lia.
+  Qed.
+End Dwell.
